@@ -37,6 +37,7 @@ import (
 	uuid "github.com/satori/go.uuid"
 	"github.com/sirupsen/logrus"
 	"google.golang.org/grpc"
+	"verif/harness/ports"
 )
 
 type Options struct {
@@ -275,30 +276,7 @@ func installHooks() {
 	})
 }
 
-var portCtr int64
-
-// freePort hands out ports from a range owned by this shard (shards of one
-// check run in parallel processes), skipping ports that are in use.
-func freePort() string {
-	shard := 0
-	if s := os.Getenv("VERIF_SHARD"); s != "" {
-		fmt.Sscanf(s, "%d/", &shard)
-	}
-	if s := os.Getenv("VERIF_PORT_SHARD"); s != "" { // isolated child of a shard
-		fmt.Sscanf(s, "%d", &shard)
-	}
-	base := 20000 + (shard%20)*2000
-	for i := 0; i < 4000; i++ {
-		p := base + int(atomic.AddInt64(&portCtr, 1))%2000
-		l, err := net.Listen("tcp", fmt.Sprintf(":%d", p))
-		if err != nil {
-			continue
-		}
-		l.Close()
-		return fmt.Sprint(p)
-	}
-	panic("no free port")
-}
+func freePort() string { return ports.Free() }
 
 // New prepares a cluster (nothing is started yet).
 func New(opt Options) *Cluster {
